@@ -7,6 +7,10 @@ tie     : correspondence.  For every generated (operator, settings, rhs) cell th
           alg_solve on PrimFloat (direct methods, tolerance) resp. with the residual predicate (CG), inside Coq.
 search  : the property predicate evaluated directly on the implementation's output with an independent dense
           oracle (plain torch on the constructor arguments) — for every generated case.
+grid    : (class x settings row x rhs kind x kappa) + three deterministic input families (`family_cells`): solves routed
+          through factor operators (op.cholesky(upper=u) of every PD constructor), batches whose members differ in
+          conditioning (psd_safe_cholesky's jitter loop), structured right-hand sides on every path / entry point /
+          the backward pass.  See design_notes/C04.md section 3.
 """
 import contextlib
 import itertools
@@ -497,7 +501,7 @@ def family_cells(ctx, rng, configs):
                     add("factor", "CholOf", kw, n, ob, kind, st, KAPPAS[(bi + ki) % len(KAPPAS)], via=via)
                 # the factor as the triangular system it is: F.solve(B[, L])
                 if bcls != "BatchRepeat":      # (Triangular over BatchRepeat: covered by TriRepeat and its listed defects)
-                    for kind in ((["mat", "left"] if not ob else ["mat"]) if ctx.quick else ["vec", "mat", "bat", "left"]):
+                    for kind in ((["mat", "left", "vec"] if not ob else ["mat"]) if ctx.quick else ["vec", "mat", "bat", "left"]):
                         add("factor", "FactorTri", kw, n, ob, kind, CHOL, KAPPAS[(bi + int(up)) % len(KAPPAS)], via="solve")
 
     # ---------------- (b) batches whose members differ in conditioning (Cholesky path)
@@ -951,7 +955,7 @@ def run(ctx):
     t0 = time.time()
     cases = []          # (cell, spec, rhs, left, obs, literal or None)
     stats = {"calls": 0, "raised": 0, "cg": 0, "cg_warned": 0, "direct_failures": 0}
-    by_method, by_cls, by_kind, by_dtype = {}, {}, {}, {}
+    by_method, by_cls, by_kind, by_dtype, by_family = {}, {}, {}, {}, {}
     seen_fail = set()
     distinct = set()
     for cell, spec, rhs, left, obs in generate(ctx):
@@ -961,6 +965,8 @@ def run(ctx):
         by_cls[cell["cls"]] = by_cls.get(cell["cls"], 0) + 1
         by_kind[cell["kind"]] = by_kind.get(cell["kind"], 0) + 1
         by_dtype[cell.get("dtype", "f64")] = by_dtype.get(cell.get("dtype", "f64"), 0) + 1
+        fk = "%s/%s" % (cell.get("fam", "grid"), cell.get("via", "solve"))
+        by_family[fk] = by_family.get(fk, 0) + 1
         if meth == "cg":
             stats["cg"] += 1
             stats["cg_warned"] += int(bool(obs["warn"]))
@@ -979,7 +985,8 @@ def run(ctx):
                 ctx.violation(dict(replay_of(cell, spec, rhs, left, obs, "property-failure"), what=f[1]), key=key)
         if cell["N"] > 1:
             distinct.add((ops.label(spec), cell["N"], tuple(cell["ob"]), cell["kind"], meth,
-                          json.dumps(cell["st"], sort_keys=True), cell["kappa"]))
+                          json.dumps(cell["st"], sort_keys=True), cell["kappa"], cell.get("via", "solve"), cell.get("rhsmod"),
+                          tuple(cell.get("profile") or ())))
         cases.append((cell, spec, rhs, left, obs, lit, f))
     t_impl = time.time() - t0
 
@@ -1035,16 +1042,21 @@ def run(ctx):
             "specification is checked numerically per case; linear_cg not transcribed (residual predicate; C08)",
             "IEEE rounding: theorems are exact-arithmetic; binary64 differences covered by the tolerance 1e-9 (kappa <= 1e4) / 1e-7 (kappa = 1e6)",
             "correspondence harness harness/c04.py + harness/c04_ops.py (builders, independent dense oracle, logger/linear_cg capture, "
-            "comparators coq/C04/Check.v)"],
+            "comparators coq/C04/Check.v)",
+            "psd_safe_cholesky's jitter loop is modelled for cholesky_jitter = 10^-e; a batch is checked member by member "
+            "(justified in exact arithmetic by C04_psd_safe_batch_member)"],
         "evaluations": len(cases), "distinct_nontrivial": len(distinct),
         "rule": "one evaluation = one solve call on the real operator (path events + values). non-trivial = matrix size > 1; distinct by "
-                "(operator tree, size, operator batch shape, rhs kind, observed method, settings row, condition number)",
+                "(operator tree, size, operator batch shape, rhs kind, observed method, settings row, condition number, entry point, rhs structure, "
+                "member conditioning profile)",
         "samples": samples, "mismatches": len(mism), "shards": n_shards,
-        "settings_rows": len(covering_rows()), "by_method": by_method, "by_class": by_cls, "by_rhs_kind": by_kind, "by_dtype": by_dtype,
+        "settings_rows": len(covering_rows()), "by_method": by_method, "by_class": by_cls, "by_rhs_kind": by_kind, "by_dtype": by_dtype, "by_family_and_entry_point": by_family,
         "stats": stats, "impl_seconds": round(t_impl, 1),
     })
     ctx.assumptions = [
-        "operators are symmetric positive definite (Triangular / Permutation: invertible), condition number <= 1e6, float64",
+        "operators are symmetric positive definite (Triangular / Permutation: invertible), condition number <= 1e6 (1e7 for single batch members "
+        "of the conditioning profiles), float64; a numerically singular batch member (smallest eigenvalue -1e-9 / -5e-8) is only compared with the "
+        "model's jitter ladder, the property does not judge it",
         "max_cg_iterations >= max_lanczos_quadrature_iterations (linear_cg raises otherwise, loudly)",
         "a CG run that emits the not-converged NumericalWarning is outside the property (the tolerance was not reached, loudly)",
         "beta_features.default_preconditioner off (default)",
@@ -1065,7 +1077,9 @@ def replay(rp):
     f = predicate(cell, spec, rhs, left, obs)
     print("operator:", ops.label(spec), "settings:", cell["st"], "rhs kind:", cell["kind"])
     print("events:", obs["events"], "warn:", obs.get("warn"), "exc:", obs.get("exc"))
-    if torch.is_tensor(obs.get("out")):
+    if torch.is_tensor(obs.get("out")) and not cell.get("profile"):
         print("max |out - reference| =", (obs["out"].to(F64) - reference(spec, rhs, left)).abs().max().item())
+    if cell.get("profile"):
+        print("batch members (conditioning profile):", cell["profile"], "- every PD member is judged against a dense solve of that member alone")
     print("property failure: %s" % (f,) if f else "property holds on this case")
     return 1 if f else 0
